@@ -127,11 +127,13 @@ func indent(s string) string {
 }
 
 func run(c *mc.Ctx, r *mc.Result) {
-	maxLive := 3
 	if c.Quick() {
-		maxLive = 2
+		runBFS(c, r, "prefixes", PoolFor(true), 2, false)
+	} else {
+		// two methods with up to 3 live routes expanded, and all three methods with up to 2
+		runBFS(c, r, "prefixes", PoolFor(true), 3, false)
+		runBFS(c, r, "prefixes-3-methods", PoolFor(false), 2, false)
 	}
-	runBFS(c, r, "prefixes", PoolFor(c.Quick()), maxLive, false)
 	sib := 5
 	if !c.Quick() {
 		sib = 6
